@@ -77,7 +77,7 @@ func countExpr(e *ebnf.Expression, c *ebnfCounts) {
 // parsed tree survives print + parse unchanged.
 func TestVerif_C14_EBNF(t *testing.T) {
 	res := &xResult{Check: "Parser.String EBNF", Property: "C14", Exhaustive: true,
-		Bound: "the grammar family of the C08 stand-in: one production with <= 4 nodes, two productions with <= 2 and <= 3 nodes (thorough: one production <= 5, two productions <= 3 and <= 3) over {literal \"x\", literal a\"\\b%d (needs escaping, holds a formatting verb), production, sequence, choice, ? * + !, ~, (?= ), (?! ), capture, redundant parentheses}; plus 7 grammars built with Build from struct tags: union root, union field, anonymous and embedded struct types, Parseable and custom productions, ( x* )?",
+		Bound: "the grammar family of the C08 stand-in: one production with <= 4 nodes, two productions with <= 2 and <= 3 nodes (thorough: one production <= 5, two productions <= 3 and <= 3) over {literal \"x\", literal a\"\\b%d\\ (needs escaping, holds a formatting verb, ends in a backslash), production, sequence, choice, ? * + !, ~, (?= ), (?! ), capture, redundant parentheses}; plus 7 grammars built with Build from struct tags: union root, union field, anonymous and embedded struct types, Parseable and custom productions, ( x* )?",
 		Rule: "distinct grammars; non-trivial = contains a modifier, ~ or a lookahead group"}
 	one, twoA, twoB := 4, 2, 3
 	if os.Getenv("VERIF_TIER") == "thorough" {
